@@ -3,15 +3,18 @@ import GdcVerif.Lemmas.JllOptimal
   L6, general alphabet: `BuildOptimalHuffmanTable` (model `JLL.Opt.buildOptimal`) for ANY 256
   frequencies (all of them may be non-zero; 257 leaves with the pseudo-symbol).
 
-  * G1a `mergeLoop_run`: the merge loop always succeeds (no panic, no fuel exhaustion) and leaves a
-    single live chain with the Kraft equality at budget 256 (code sizes ≤ 256).
-  * G1b `buildOptimal_valid_of_depth`: if every code size after the merge loop is ≤ 32
-    (`DepthLe f 32`, decidable: `maxDepth f ≤ 32`) the result is a valid table specification.
-  * G1c `buildOptimal_panic_of_depth`: otherwise the real function panics (`bits[size]`, size > 32);
-    `buildOptimal_ok_iff`: success ⇔ depth ≤ 32; `buildOptimal` never reports `.err`.
+  * G1a `mergeLoop_run` / `mergeLoop_total`: the merge loop always succeeds (no panic, no fuel
+    exhaustion) and leaves a single live chain with the Kraft equality at budget 256 (code sizes
+    ≤ 256 = `maxHuffmanCodeLength`: `depthLe_256`).
+  * G1b `buildOptimal_total`, `buildOptimal_valid` (proved in JllOptimal.lean, where the count forms
+    are their corollaries): since fix PENDING:c11-huffman-depth-over-32 the work array has 257
+    entries, so for ANY 256 frequencies the function returns normally and the result is a valid
+    table specification; `buildOptimal_ne_panic`, `buildOptimal_ne_err` here.  (Before the fix the
+    array had 33 entries and the function panicked exactly when the depth exceeded 32.)
   * G2 `depth_fib`: a code size `d ≥ 1` after the merge loop forces `fib (d + 2) ≤ Σ f + 1`
-    (`fib 1 = fib 2 = 1`); hence `Σ f + 1 < fib 35 = 9227465 → DepthLe f 32`
-    (`depthLe_of_sum`, `buildOptimal_valid_of_sum`).
+    (`fib 1 = fib 2 = 1`); hence `Σ f + 1 < fib 35 = 9227465 → DepthLe f 32` (`depthLe_of_sum`):
+    below that total the length-limiting loop never sees a size beyond 32.  These are facts about
+    the depth only; safety no longer depends on them.
 -/
 namespace JLL.Opt
 
@@ -563,412 +566,51 @@ theorem depthLe_iff (f : List Nat) (d : Nat) :
     · intro _ st e; cases e
     · intro _; exact Nat.zero_le _
 
-theorem Inv.to32 {P N st ch k} (h : Inv P N 256 st ch k) (hle : ∀ a, st.cs a ≤ 32) :
-    Inv P N 32 st ch k := by
-  refine ⟨h.szF, h.szC, h.szO, h.chain, h.nodup, h.disj, h.cnt, h.csle, ?_, h.pos, h.cover, h.orig, h.memP⟩
-  intro i hi
-  have hk := h.kraft i hi
-  have e : (ch i).map (fun a => 2 ^ (256 - st.cs a)) = (ch i).map (fun a => 2 ^ 224 * 2 ^ (32 - st.cs a)) := by
-    apply List.map_congr_left
-    intro a _
-    rw [← Nat.pow_add]
-    congr 1
-    have := hle a
-    omega
-  rw [e, sum_map_mul_nat] at hk
-  have e2 : (2 : Nat) ^ 256 = 2 ^ 224 * 2 ^ 32 := Nat.pow_add 2 224 32
-  rw [e2] at hk
-  exact Nat.eq_of_mul_eq_mul_left (Nat.pow_pos (by omega)) hk
+/-- a Huffman tree over the 256 symbols plus the pseudo-symbol is at most 256 levels deep: every
+    code size fits the 257-entry work array `bits` -/
+theorem depthLe_256 (f : List Nat) (hlen : f.length = 256) : DepthLe f 256 := by
+  rw [depthLe_iff]
+  intro st hst a
+  obtain ⟨st', chain, m1, _, _, hle, _⟩ := mergeLoop_total f hlen
+  rw [hst] at m1
+  injection m1 with m1
+  subst m1
+  exact hle a
 
-/-- `Inv.final` with the depth hypothesis instead of the count hypothesis -/
-theorem Inv.final_depth {P N st ch k} (h : Inv P N 32 st ch k) (hfin : Final st) (hle : ∀ a, st.cs a ≤ 32) :
-    ∃ c, live st.freq c ∧ (∀ j, live st.freq j → j = c) ∧
-    ((ch c = [c] ∧ ∀ a, st.cs a = 0) ∨
-     ((∀ a ∈ ch c, 1 ≤ st.cs a) ∧
-      ∃ b1, countSizes st.codeSize.toList (Array.replicate 33 0) = .ok b1 ∧ BInv b1 32 ∧
-        cntB b1 = (st.codeSize.toList.map (fun x => if x > 0 then (1 : Int) else 0)).sum)) := by
-  obtain ⟨c, hc, hall⟩ := hfin
-  refine ⟨c, hc, hall, ?_⟩
-  rcases h.pos c hc with ⟨p1, p2⟩ | hp
-  · left
-    refine ⟨p1, ?_⟩
-    intro a
-    apply Classical.byContradiction
-    intro ha
-    obtain ⟨i, hi, hai⟩ := h.cover a ha
-    have := hall i hi
-    subst this
-    rw [p1] at hai
-    simp at hai
-    subst hai
-    exact ha p2
-  · right
-    have hl32 : ∀ x ∈ st.codeSize.toList, x ≤ 32 := by
-      rw [codeSize_toList st h.szC]
-      intro x hx
-      simp only [List.mem_map] at hx
-      obtain ⟨i, _, rfl⟩ := hx
-      exact hle i
-    obtain ⟨b1, e1, e2, e3, e4, e5⟩ := countSizes_ok st.codeSize.toList (Array.replicate 33 0) (by simp) hl32
-    have hz : ∀ w : Nat → Int, wsum w (Array.replicate 33 (0 : Int)).toList 0 = 0 := by
-      intro w
-      simp [wsum]
-    refine ⟨hp, b1, e1, ?_, by unfold cntB; rw [e3 (fun _ => 1), hz]; simp⟩
-    have hnn0 : ∀ j : Nat, 0 ≤ (Array.replicate 33 (0 : Int))[j]?.getD 0 := by
-      intro j
-      rw [Array.getElem?_replicate]
-      split <;> simp
-    have hsum : ∀ g : Nat → Int, g 0 = 0 →
-        (st.codeSize.toList.map g).sum = ((ch c).map (fun a => g (st.cs a))).sum := by
-      intro g hg
-      rw [codeSize_toList st h.szC, List.map_map]
-      exact sum_range_eq_sum_support (ch c) (g ∘ fun i => st.cs i) 257 (h.nodup c hc)
-        (fun a ha => by
-          have := (h.chain c hc).mem_lt a ha
-          rw [h.szO] at this; exact this)
-        (fun i _ hic => by
-          have : st.cs i = 0 := by
-            apply Classical.byContradiction
-            intro hne
-            obtain ⟨j, hj, hij⟩ := h.cover i hne
-            have := hall j hj
-            subst this
-            exact hic hij
-          simp [this, hg])
-    refine ⟨e2, e4 hnn0, ?_, ?_, ?_, ?_⟩
-    · unfold kraftB
-      rw [e3 kw, hz, hsum _ (by simp)]
-      have hk := h.kraft c hc
-      have := sum_map_cast (fun a => 2 ^ (32 - st.cs a)) (ch c)
-      rw [hk] at this
-      have e : (ch c).map (fun a => if st.cs a > 0 then kw (st.cs a) else 0)
-          = (ch c).map (fun a => (((2 ^ (32 - st.cs a) : Nat)) : Int)) := by
-        apply List.map_congr_left
-        intro a ha
-        have := hp a ha
-        rw [if_pos (by omega)]
-        rfl
-      rw [e, ← this]
-      simp [kw]
-    · unfold cntB
-      rw [e3 (fun _ => 1), hz, hsum _ (by simp)]
-      have hlen := h.chain_len hc
-      have : ∀ l : List Nat, (l.map (fun a => if st.cs a > 0 then (1 : Int) else 0)).sum ≤ l.length := by
-        intro l
-        induction l with
-        | nil => simp
-        | cons x l ih =>
-          simp only [List.map_cons, List.sum_cons, List.length_cons]
-          split <;> omega
-      have := this (ch c)
-      omega
-    · intro j hj
-      have : b1[j]? = none := by simp; omega
-      rw [this]; rfl
-    · rw [e5]
-      simp
+/-- at most 32 non-zero frequencies ⇒ at most 32 merges ⇒ depth ≤ 32 -/
+theorem depthLe_of_count (f : List Nat) (hlen : f.length = 256)
+    (hc : f.countP (fun x => x != 0) ≤ 32) : DepthLe f 32 := by
+  rw [depthLe_iff]
+  intro st hst a
+  have hN : nz (st0 f).freq ≤ 33 := by rw [nz_st0]; omega
+  obtain ⟨st', ch, k, m1, m2, c, hc', _⟩ :=
+    mergeLoop_ok (K := 32) (by omega) 258 (st0 f) _ 0 (inv_st0 f hlen 32) ⟨256, live_st0_256 f hlen⟩ (by omega)
+  rw [hst] at m1
+  injection m1 with m1
+  subst m1
+  have := m2.csle a
+  have := m2.cnt
+  have := nz_pos_of_live hc'
+  omega
 
-theorem buildOptimal_unfold (f : List Nat) : buildOptimal f = (do
-    let st ← mergeLoop 258 (st0 f)
-    let bits ← countSizes st.codeSize.toList (Array.replicate 33 (0 : Int))
-    let bits ← limitLoop ((List.range' 17 16).reverse) bits
-    let bits := removePseudo ((List.range' 1 32).reverse) bits
-    pure ((bits.toList.drop 1).take 16, sortValues st.codeSize)) := rfl
+/-! ## 5. G1b: totality (the theorems `buildOptimal_total` and `buildOptimal_valid` are in
+    JllOptimal.lean) -/
 
-/-- the anatomy of a run of `buildOptimal` when the unrestricted code has depth ≤ 32 -/
-theorem buildOptimal_spec_depth (f : List Nat) (hlen : f.length = 256) (hd : DepthLe f 32) :
-    ∃ st ch k c b2,
-      Inv (live (st0 f).freq) (nz (st0 f).freq) 32 st ch k ∧
-      live st.freq c ∧ (∀ j, live st.freq j → j = c) ∧ (∀ a, st.cs a ≤ 32) ∧
-      buildOptimal f = .ok ((((removePseudo ((List.range' 1 32).reverse) b2).toList.drop 1).take 16),
-        sortValues st.codeSize) ∧
-      ((ch c = [c] ∧ (∀ a, st.cs a = 0) ∧ b2 = Array.replicate 33 0) ∨
-       ((∀ a ∈ ch c, 1 ≤ st.cs a) ∧ BInv b2 16 ∧
-         cntB b2 = (st.codeSize.toList.map (fun x => if x > 0 then (1 : Int) else 0)).sum)) := by
-  obtain ⟨st, ch, k, c0, m1, m2', _, hc0, hall0⟩ := mergeLoop_run f hlen
-  have hle : ∀ a, st.cs a ≤ 32 := (depthLe_iff f 32).1 hd st m1
-  have m2 := m2'.to32 hle
-  obtain ⟨c, hlc, hall, hcase⟩ := m2.final_depth ⟨c0, hc0, hall0⟩ hle
-  rw [buildOptimal_unfold, m1]
-  rcases hcase with ⟨hch, hz⟩ | ⟨hp, b1, c1, c2, c3⟩
-  · have hz' : ∀ x ∈ st.codeSize.toList, x = 0 := by
-      rw [codeSize_toList st m2.szC]
-      intro x hx
-      simp only [List.mem_map] at hx
-      obtain ⟨i, _, rfl⟩ := hx
-      exact hz i
-    have l1 := limitLoop_zero ((List.range' 17 16).reverse) (by
-      intro x hx
-      simp only [List.mem_reverse, List.mem_range'_1] at hx
-      omega)
-    refine ⟨st, ch, k, c, Array.replicate 33 0, m2, hlc, hall, hle, ?_, Or.inl ⟨hch, hz, rfl⟩⟩
-    simp only [bind, countSizes_zero _ _ hz', l1]
-    rfl
-  · obtain ⟨b2, l1, l2, l3⟩ := limitLoop_ok 16 16 b1 (by omega) (by omega) c2
-    refine ⟨st, ch, k, c, b2, m2, hlc, hall, hle, ?_, Or.inr ⟨hp, l2, by rw [l3, c3]⟩⟩
-    simp only [bind, c1, l1]
-    rfl
-
-/-! ## 5. G1b: validity under depth ≤ 32 -/
-
-/-- **G1b**: for ANY 256 frequencies, if the unrestricted Huffman code has depth ≤ 32 the produced
-    `(Bits, Values)` is a valid table specification (`buildOptimal_valid_of_count` with the count
-    hypothesis replaced by the depth hypothesis). -/
-theorem buildOptimal_valid_of_depth (f : List Nat) (hlen : f.length = 256) (hd : DepthLe f 32) :
-    ∃ bits values, buildOptimal f = .ok (bits, values) ∧
-      bits.length = 16 ∧ (∀ x ∈ bits, 0 ≤ x) ∧
-      (bits.map Int.toNat).sum = values.length ∧
-      values.Nodup ∧
-      (∀ i, i ∈ values ↔ i < 256 ∧ f[i]?.getD 0 ≠ 0) ∧
-      kraft16 bits < 65536 := by
-  obtain ⟨st, ch, k, c, b2, hinv, hlc, hall, hle, hrun, hcase⟩ := buildOptimal_spec_depth f hlen hd
-  refine ⟨_, _, hrun, ?_⟩
-  have hszC := hinv.szC
-  -- 256 sits in the final chain
-  have h256 : 256 ∈ ch c := by
-    obtain ⟨j, hj, hm⟩ := hinv.orig 256 (live_st0_256 f hlen)
-    have := hall j hj
-    subst this; exact hm
-  -- membership in the value list
-  have hmem : ∀ i, i ∈ sortValues st.codeSize ↔ i < 256 ∧ f[i]?.getD 0 ≠ 0 := by
-    intro i
-    rw [sortValues_mem st.codeSize hszC]
-    constructor
-    · rintro ⟨hi, h1, _⟩
-      refine ⟨hi, ?_⟩
-      obtain ⟨j, hj, hm⟩ := hinv.cover i (by unfold St.cs; omega)
-      have := (live_st0_iff f hlen i).1 (hinv.memP j hj i hm)
-      rcases this with h | h
-      · exact h.2
-      · omega
-    · rintro ⟨hi, hf⟩
-      refine ⟨hi, ?_, hle i⟩
-      obtain ⟨j, hj, hm⟩ := hinv.orig i ((live_st0_iff f hlen i).2 (Or.inl ⟨hi, hf⟩))
-      have := hall j hj
-      subst this
-      rcases hcase with ⟨hch, _, _⟩ | ⟨hp, _, _⟩
-      · rw [hch] at hm h256
-        simp at hm h256
-        omega
-      · exact hp i hm
-  have hlenV := sortValues_length_int st hszC hle
-  have L32 : ∀ s ∈ (List.range' 1 32).reverse, s < 33 := by
-    intro s hs
-    simp only [List.mem_reverse, List.mem_range'_1] at hs
-    omega
-  rcases hcase with ⟨hch, hz, hb2⟩ | ⟨hp, hB, hcnt⟩
-  · -- only the pseudo-symbol: empty table
-    subst hb2
-    have hrp : removePseudo ((List.range' 1 32).reverse) (Array.replicate 33 (0 : Int)) = Array.replicate 33 0 := by
-      rcases removePseudo_spec ((List.range' 1 32).reverse) (Array.replicate 33 (0 : Int))
-        (by simp) with ⟨e, _⟩ | ⟨s, hs, h1, _⟩
-      · exact e
-      · rw [Array.getElem?_replicate] at h1
-        split at h1 <;> simp at h1
-    rw [hrp]
-    have hcut : ((Array.replicate 33 (0 : Int)).toList.drop 1).take 16 = List.replicate 16 0 := by
-      simp
-    rw [hcut]
-    have hV0 : (sortValues st.codeSize).length = 0 := by
-      have : ((List.range 256).map (fun i => if st.cs i > 0 then (1 : Int) else 0)).sum = 0 := by
-        apply sum_map_zero
-        intro x _
-        rw [hz x]; rfl
-      rw [this] at hlenV
-      omega
-    refine ⟨by simp, ?_, ?_, sortValues_nodup _, hmem, by decide⟩
-    · intro x hx
-      have := List.eq_of_mem_replicate hx
-      omega
-    · rw [hV0]; decide
-  · -- a proper code
-    rcases removePseudo_spec ((List.range' 1 32).reverse) b2 (by rw [hB.sz]; exact L32) with
-      ⟨_, e2⟩ | ⟨s, hs, h1, e2⟩
-    · -- impossible: a complete code has a code word
-      exfalso
-      have hz : ∀ x ∈ b2.toList, x = 0 := by
-        intro x hx
-        obtain ⟨j, hj, rfl⟩ := List.getElem_of_mem hx
-        have hj' : j < b2.size := by simpa using hj
-        have hj33 : j < 33 := by rw [hB.sz] at hj'; exact hj'
-        have hbj : b2[j]? = some b2[j] := by simp
-        have hn := hB.nn j
-        rw [hbj] at hn
-        simp only [Option.getD_some] at hn
-        rw [Array.getElem_toList]
-        by_cases hj0 : j = 0
-        · subst hj0
-          have := hB.z0
-          rw [hbj] at this
-          simpa using this
-        · have := e2 j (by simp only [List.mem_reverse, List.mem_range'_1]; omega)
-          rw [hbj] at this
-          simp only [Option.getD_some] at this
-          omega
-      have := hB.kr
-      unfold kraftB at this
-      rw [wsum_zero kw _ 0 hz] at this
-      have := kw_pos 0
-      omega
-    · simp only [List.mem_reverse, List.mem_range'_1] at hs
-      have hs16 : s ≤ 16 := by
-        apply Classical.byContradiction
-        intro hn
-        have := hB.hi s (by omega)
-        omega
-      rw [e2]
-      have hsz' : (bump b2 s (-1)).size = 33 := by rw [bump_size]; exact hB.sz
-      have hs33 : s < b2.size := by rw [hB.sz]; omega
-      have hget : ∀ j : Nat, (bump b2 s (-1))[j]?.getD 0 = b2[j]?.getD 0 + (if s = j then -1 else 0) :=
-        bump_get b2 s (-1) hs33
-      have hnn' : ∀ j : Nat, 0 ≤ (bump b2 s (-1))[j]?.getD 0 := by
-        intro j
-        rw [hget j]
-        have := hB.nn j
-        by_cases hsj : s = j
-        · subst hsj; rw [if_pos rfl]; omega
-        · rw [if_neg hsj]; omega
-      have h0' : (bump b2 s (-1))[0]?.getD 0 = 0 := by
-        rw [hget 0, hB.z0, if_neg (by omega)]; rfl
-      have hhi' : ∀ j : Nat, 16 < j → (bump b2 s (-1))[j]?.getD 0 = 0 := by
-        intro j hj
-        rw [hget j, hB.hi j hj, if_neg (by omega)]; rfl
-      have hcs256 : st.cs 256 > 0 := hp 256 h256
-      refine ⟨cut_length _ hsz', ?_, ?_, sortValues_nodup _, hmem, ?_⟩
-      · intro x hx
-        obtain ⟨j, _, rfl⟩ := cut_mem _ x hx
-        exact hnn' j
-      · have t1 := wsum_toNat (cut (bump b2 s (-1))) 1 (by
-          intro x hx
-          obtain ⟨j, _, rfl⟩ := cut_mem _ x hx
-          exact hnn' j)
-        rw [← wsum_cut (fun _ => 1) _ hsz' h0' hhi', bump_wsum _ _ _ _ hs33] at t1
-        have t2 := codeSize_count_int st hszC
-        rw [if_pos hcs256] at t2
-        unfold cntB at hcnt
-        change (((List.map Int.toNat (cut (bump b2 s (-1)))).sum : Nat) : Int) = _ at t1
-        show (List.map Int.toNat (cut (bump b2 s (-1)))).sum = (sortValues st.codeSize).length
-        omega
-      · have t1 := kraftB_cut _ hsz' h0' hhi'
-        unfold kraftB at t1
-        rw [bump_wsum _ _ _ _ hs33] at t1
-        have t2 := hB.kr
-        unfold kraftB at t2
-        have e0 : kw 0 = 4294967296 := by decide
-        have := kw_pos s
-        show kraft16 (cut (bump b2 s (-1))) < 65536
-        omega
-
-/-! ## 6. G1c: depth > 32 is exactly the `bits[size]` panic -/
-
-theorem countSizes_panic : ∀ (l : List Nat) (bits : Array Int), bits.size = 33 → (∃ x ∈ l, 32 < x) →
-    countSizes l bits = .panic
-  | [], _, _, h => by
-    obtain ⟨x, hx, _⟩ := h
-    simp at hx
-  | y :: l, bits, hs, h => by
-    rw [countSizes]
-    by_cases hy0 : y > 0
-    · rw [if_pos hy0]
-      by_cases hy : 32 < y
-      · have : bits[y]? = none := by simp; omega
-        rw [this]
-      · have hb : bits[y]? = some bits[y] := by simp
-        rw [hb]
-        apply countSizes_panic l _ (by simpa using hs)
-        obtain ⟨x, hx, hx32⟩ := h
-        rcases List.mem_cons.1 hx with rfl | hx
-        · omega
-        · exact ⟨x, hx, hx32⟩
-    · rw [if_neg hy0]
-      apply countSizes_panic l _ hs
-      obtain ⟨x, hx, hx32⟩ := h
-      rcases List.mem_cons.1 hx with rfl | hx
-      · omega
-      · exact ⟨x, hx, hx32⟩
-
-/-- **G1c**: if some code size after the merge loop exceeds 32, `BuildOptimalHuffmanTable` panics
-    (index out of range in `bits[size]++`). -/
-theorem buildOptimal_panic_of_depth (f : List Nat) (hlen : f.length = 256) (hd : ¬ DepthLe f 32) :
-    buildOptimal f = .panic := by
-  obtain ⟨st, ch, k, c, m1, m2, _, _, _⟩ := mergeLoop_run f hlen
-  have hex : ∃ a, 32 < st.cs a := by
-    apply Classical.byContradiction
-    intro hn
-    apply hd
-    rw [depthLe_iff]
-    intro st' e a
-    rw [m1] at e
-    injection e with e
-    subst e
-    apply Classical.byContradiction
-    intro hlt
-    exact hn ⟨a, by omega⟩
-  obtain ⟨a, ha⟩ := hex
-  have hmem : ∃ x ∈ st.codeSize.toList, 32 < x := by
-    refine ⟨st.cs a, ?_, ha⟩
-    rw [codeSize_toList st m2.szC]
-    simp only [List.mem_map, List.mem_range]
-    refine ⟨a, ?_, rfl⟩
-    apply Classical.byContradiction
-    intro hn
-    have : st.codeSize[a]? = none := by simp [m2.szC]; omega
-    unfold St.cs at ha
-    rw [this] at ha
-    simp at ha
-  have hp := countSizes_panic st.codeSize.toList (Array.replicate 33 (0 : Int)) (by simp) hmem
-  rw [buildOptimal_unfold, m1]
-  simp only [bind, hp]
-
-/-- **G1, exact**: `BuildOptimalHuffmanTable` succeeds iff the unrestricted code has depth ≤ 32. -/
-theorem buildOptimal_ok_iff (f : List Nat) (hlen : f.length = 256) :
-    (∃ r, buildOptimal f = .ok r) ↔ DepthLe f 32 := by
-  constructor
-  · rintro ⟨r, hr⟩
-    apply Classical.byContradiction
-    intro hn
-    rw [buildOptimal_panic_of_depth f hlen hn] at hr
-    cases hr
-  · intro hd
-    obtain ⟨bits, values, h, _⟩ := buildOptimal_valid_of_depth f hlen hd
-    exact ⟨_, h⟩
-
-theorem buildOptimal_panic_iff (f : List Nat) (hlen : f.length = 256) :
-    buildOptimal f = .panic ↔ ¬ DepthLe f 32 := by
-  constructor
-  · intro hp hd
-    obtain ⟨r, hr⟩ := (buildOptimal_ok_iff f hlen).2 hd
-    rw [hp] at hr
-    cases hr
-  · exact buildOptimal_panic_of_depth f hlen
+/-- no index panic for ANY 256 frequencies (in particular `bits[size]++`: `size ≤ 256 < 257`) -/
+theorem buildOptimal_ne_panic (f : List Nat) (hlen : f.length = 256) : buildOptimal f ≠ .panic := by
+  intro he
+  obtain ⟨r, hr⟩ := buildOptimal_total f hlen
+  rw [he] at hr
+  cases hr
 
 /-- the model never reports `.err` (fuel exhaustion = non-termination of the Go loops) -/
 theorem buildOptimal_ne_err (f : List Nat) (hlen : f.length = 256) : buildOptimal f ≠ .err := by
   intro he
-  by_cases hd : DepthLe f 32
-  · obtain ⟨r, hr⟩ := (buildOptimal_ok_iff f hlen).2 hd
-    rw [he] at hr
-    cases hr
-  · rw [buildOptimal_panic_of_depth f hlen hd] at he
-    cases he
+  obtain ⟨r, hr⟩ := buildOptimal_total f hlen
+  rw [he] at hr
+  cases hr
 
-/-- the old hypothesis implies the new one: at most 32 non-zero frequencies ⇒ depth ≤ 32 -/
-theorem depthLe_of_count (f : List Nat) (hlen : f.length = 256)
-    (hc : f.countP (fun x => x != 0) ≤ 32) : DepthLe f 32 :=
-  (buildOptimal_ok_iff f hlen).1 (buildOptimal_ok_of_count f hlen hc)
-
-/-- `buildOptimal_valid_of_count` re-derived as a corollary of the depth form -/
-theorem buildOptimal_valid_of_count' (f : List Nat) (hlen : f.length = 256)
-    (hc : f.countP (fun x => x != 0) ≤ 32) :
-    ∃ bits values, buildOptimal f = .ok (bits, values) ∧
-      bits.length = 16 ∧ (∀ x ∈ bits, 0 ≤ x) ∧
-      (bits.map Int.toNat).sum = values.length ∧
-      values.Nodup ∧
-      (∀ i, i ∈ values ↔ i < 256 ∧ f[i]?.getD 0 ≠ 0) ∧
-      kraft16 bits < 65536 :=
-  buildOptimal_valid_of_depth f hlen (depthLe_of_count f hlen hc)
-
-/-! ## 7. G2: the depth is bounded by the total count (Fibonacci bound) -/
+/-! ## 6. G2: the depth is bounded by the total count (Fibonacci bound) -/
 
 /-- **G2**: a code size `d ≥ 1` after the merge loop forces a total weight (all frequencies plus the
     pseudo-symbol) of at least `fib (d + 2)` (`fib 1 = fib 2 = 1`). -/
@@ -1016,9 +658,10 @@ theorem maxDepth_fib (f : List Nat) (hlen : f.length = 256) : fib (maxDepth f + 
       rw [this]; exact h0
 
 /-- **G2, consequence**: fewer than `fib 35 - 1 = 9227464` samples in total keep every code size
-    ≤ 32, so the table construction cannot panic.  The constant is sharp (checked with `#eval`, not
-    kernel-proved): `f = replicate 223 0 ++ [fib 33, fib 32, …, fib 2, fib 1]` has
-    `f.sum + 1 = 9227465`, `maxDepth f = 33` and `buildOptimal f = .panic`. -/
+    ≤ 32.  The constant is sharp (checked with `#eval`, not kernel-proved):
+    `f = replicate 223 0 ++ [fib 33, fib 32, …, fib 2, fib 1]` has `f.sum + 1 = 9227465` and
+    `maxDepth f = 33`; on it the function panicked before fix PENDING:c11-huffman-depth-over-32 (33-entry
+    work array) and returns normally since (`buildOptimal_total`). -/
 theorem depthLe_of_sum (f : List Nat) (hlen : f.length = 256) (hs : f.sum + 1 < 9227465) :
     DepthLe f 32 := by
   unfold DepthLe
@@ -1028,14 +671,5 @@ theorem depthLe_of_sum (f : List Nat) (hlen : f.length = 256) (hs : f.sum + 1 < 
   have h2 : fib 35 ≤ fib (maxDepth f + 2) := fib_mono (by omega)
   rw [fib_35] at h2
   omega
-
-theorem buildOptimal_valid_of_sum (f : List Nat) (hlen : f.length = 256) (hs : f.sum + 1 < 9227465) :
-    ∃ bits values, buildOptimal f = .ok (bits, values) ∧
-      bits.length = 16 ∧ (∀ x ∈ bits, 0 ≤ x) ∧
-      (bits.map Int.toNat).sum = values.length ∧
-      values.Nodup ∧
-      (∀ i, i ∈ values ↔ i < 256 ∧ f[i]?.getD 0 ≠ 0) ∧
-      kraft16 bits < 65536 :=
-  buildOptimal_valid_of_depth f hlen (depthLe_of_sum f hlen hs)
 
 end JLL.Opt
